@@ -316,6 +316,12 @@ def jobs_for(prop, tier, seed):
                 else ("pass:CleanPass", "pass:Mem2RegPromotor", "pass:CJumpPass", "level:2",
                       "seq:Mem2RegPromotor+ConstantFolder+CJumpPass+CleanPass", "seq:CleanPass+CleanPass"):
             js.append(("mk_pass", dict(prop=prop, prog=nm, config=cfg, symconst=False)))
+    # skeletons with constant branch conditions: the jump-folding pass and what follows it
+    for nm in irprogs.const_cond_names(tier, seed):
+        for cfg in ("pass:CJumpPass", "seq:CJumpPass+CleanPass", "level:2") if tier == "quick" \
+                else ("pass:CJumpPass", "seq:CJumpPass+CleanPass", "seq:CJumpPass+Mem2RegPromotor+CleanPass+CJumpPass", "level:2",
+                      "seq:ConstantFolder+CJumpPass+DeleteUnusedInstructionsPass+CleanPass"):
+            js.append(("mk_pass", dict(prop=prop, prog=nm, config=cfg, symconst=False)))
     only = os.environ.get("VERIF_ONLY")
     if only:
         js = [j for j in js if only in repr(j)]
